@@ -344,7 +344,7 @@ def _mk_as_nested(rng, c, spec):
 
 def _mk_fusion(rng, c, spec, with_var=False):
     c.ref = refgen.make_reference(rng, n_genes=2, isoforms=(1, 2) if rng.random() < 0.3 else (1, 1),
-                                  n_chroms=rng.randint(1, 2))
+                                  n_chroms=rng.randint(1, 2), sec_p=0.35)
     g1, g2 = c.ref.genes
     if rng.random() < 0.5:
         g1, g2 = g2, g1
@@ -368,6 +368,11 @@ def _mk_fusion(rng, c, spec, with_var=False):
         if rng.random() < 0.3:
             k = rng.choice([sum(e - s for s, e in a.exons[:q]) for q in range(len(a.exons))])
         apos = a.tx2gene(k)
+    if d.sec and not intronic_d and rng.random() < 0.5:
+        # breakpoint right behind (or inside) an annotated Sec codon of the donor: the codon ends exactly at the breakpoint
+        j = rng.choice(d.sec) + rng.choice([3, 3, 3, 2, 4, 6])
+        if 1 <= j <= d.tx_len():
+            dpos = d.tx2gene(j - 1) + 1
     ref_base = dgs[min(dpos, len(dgs) - 1)]
     fus = Fusion(g1, d, dpos, g2, a, apos, ref_base)
     c.files = [('fusion.gvf', 'Fusion', [fus])]
@@ -452,10 +457,14 @@ def _mk_units(rng, c, spec):
                 small[(tx.id, v.id)] = v
         if rng.random() < 0.6:
             others = [g for g in genes if g is not gene]
+            prev_dpos = None
             for _ in range(rng.randint(1, 2)):
                 acc = rng.choice(others).txs[0]
                 j = rng.randint(max(6, (tx.cds[0] + 6) if tx.coding else 6), tx.tx_len() - 1)
                 dpos = tx.tx2gene(j - 1) + 1
+                if prev_dpos is not None and rng.random() < 0.5:
+                    dpos = prev_dpos       # one donor breakpoint joined to two acceptors / acceptor positions
+                prev_dpos = dpos
                 apos = acc.tx2gene(rng.randint(0, max(0, acc.tx_len() - 10)))
                 f = Fusion(gene, tx, dpos, acc.gene, acc, apos, gs[min(dpos, len(gs) - 1)])
                 if all(x.id != f.id for x in fus):
